@@ -21,8 +21,10 @@ type ChildParams struct {
 
 // NewChild create new instance of child scope
 func NewChild(parent app.Scope, params ChildParams) app.Scope {
-	var sid string
-	parent.AddTasks(1)
+	var (
+		sid        string
+		registered = parent.AddTasks(1) == nil
+	)
 	if params.ContextScope == nil {
 		params.ContextScope = parent.BaseContextScope()
 	}
@@ -43,8 +45,7 @@ func NewChild(parent app.Scope, params ChildParams) app.Scope {
 	if params.CID == "" {
 		params.CID = parent.CID()
 	}
-	return &Scope{
-		parent:       parent,
+	child := &Scope{
 		sid:          sid,
 		cid:          params.CID,
 		ContextScope: params.ContextScope,
@@ -52,4 +53,9 @@ func NewChild(parent app.Scope, params ChildParams) app.Scope {
 		EventScope:   params.EventScope,
 		Injector:     params.Injector,
 	}
+	if registered {
+		// only a child that was registered on its parent signs off from it when it closes
+		child.parent = parent
+	}
+	return child
 }
